@@ -231,6 +231,9 @@ func (w *World) joinNode(i, from int) error {
 		w.syncStuck = append(w.syncStuck, [2]int{i, from})
 		return fmt.Errorf("sync n%d<-n%d did not return within %v", i, from, opBudget)
 	}
+	if r.Panic != "" {
+		return fmt.Errorf("sync n%d<-n%d: node crashed: %s", i, from, r.Panic)
+	}
 	if r.Err != "" {
 		return fmt.Errorf("sync n%d<-n%d: %s", i, from, r.Err)
 	}
